@@ -7,7 +7,7 @@
    [flds], [mths], [prms] are the children of an optional parent; [union eqb ka kb] = ka followed
    by the keys of kb that are not in ka; [row3 a b] = [shared first name; A's name; B's name];
    [first_some a b] = a's comment if it has one, else b's. *)
-From FB Require Import C09.Model C09.Theory C09.Theory2 C09.Theory3 C09.Theory4 C09.Theory5 C09.Theory6 C09.Theory7.
+From FB Require Import C09.Model C09.Theory C09.Theory2 C09.Theory3 C09.Theory4 C09.Theory5 C09.Theory6 C09.Theory7 C09.Theory8.
 
 (* The key-zipping helper shared by diff and merge is a join: on maps with unique keys the
    combiner sees A's entries in A's order (paired with B's entry of the same key when there is
@@ -94,6 +94,15 @@ Theorem C09_merge_project : forall A B M, wf2 A = true -> wf2 B = true -> merge 
   view 1 A M = A /\ view 2 B M = B.
 Proof. exact merge_project. Qed.
 Print Assumptions C09_merge_project.
+
+(* 3'. The same from the other end: the merged set filtered to the key paths that exist in A,
+       reduced to the columns (s, a) and to A's comments, IS A — the same entries in the same
+       order.  (For B the filtered set has B's entries in the merged order — shared ones first —
+       so the equality holds only up to order; the order-free form is C09_merge_project.) *)
+Theorem C09_merge_restrict : forall A B M, wf2 A = true -> wf2 B = true -> merge A B = Ok M ->
+  restrict 1 A M = A.
+Proof. exact merge_restrict. Qed.
+Print Assumptions C09_merge_restrict.
 
 (* 5. The checks of merge.rs on descriptors, parameter indices (merge_equal) and on the first
       names of classes, fields and methods (merge_names) can never fail: what they compare is
